@@ -77,4 +77,56 @@ theorem readBlocks_frame (ps : List (List UInt8)) (tail : List UInt8) (fuel : Na
         have hz : (0 : UInt8).toNat ≠ 1 := by decide
         simp [hz, isPlain, this]
 
+/-- `(n as u64).to_le_bytes()` -/
+def u64enc (n : Nat) : List UInt8 :=
+  [UInt8.ofNat (n % 256), UInt8.ofNat (n / 256 % 256), UInt8.ofNat (n / 65536 % 256),
+   UInt8.ofNat (n / 16777216 % 256), UInt8.ofNat (n / 4294967296 % 256),
+   UInt8.ofNat (n / 1099511627776 % 256), UInt8.ofNat (n / 281474976710656 % 256),
+   UInt8.ofNat (n / 72057594037927936 % 256)]
+
+theorem u64le_enc (n : Nat) (rest : List UInt8) (h : n < 18446744073709551616) :
+    u64le (u64enc n ++ rest) = n := by
+  unfold u64le u64enc
+  simp only [List.cons_append, List.nil_append, List.take_succ_cons, List.take_zero, List.foldr_cons,
+    List.foldr_nil]
+  have e : ∀ k, k < 256 → (UInt8.ofNat k).toNat = k := fun k hk => u8_ofNat_toNat hk
+  rw [e _ (Nat.mod_lt _ (by decide)), e _ (Nat.mod_lt _ (by decide)), e _ (Nat.mod_lt _ (by decide)),
+    e _ (Nat.mod_lt _ (by decide)), e _ (Nat.mod_lt _ (by decide)), e _ (Nat.mod_lt _ (by decide)),
+    e _ (Nat.mod_lt _ (by decide)), e _ (Nat.mod_lt _ (by decide))]
+  omega
+
+theorem u64enc_length (n : Nat) : (u64enc n).length = 8 := rfl
+
+/-- mirrors: Writer::finish — data blocks with end marker, the index region (which ends with its
+own `fst_len u64`), then `index_offset u64 | num_terms u64 | version u32` -/
+def finishFile (data index : List UInt8) (numTerms version : Nat) : List UInt8 :=
+  data ++ index ++ (u64enc data.length ++ u64enc numTerms ++ u32enc version)
+
+/-- `Dictionary::open ∘ Writer::finish`: the reader recovers the data region, the index region,
+the number of terms and the version -/
+theorem openFile_finish (data index : List UInt8) (numTerms version : Nat)
+    (h1 : data.length < 18446744073709551616) (h2 : numTerms < 18446744073709551616)
+    (h3 : version < 4294967296) :
+    openFile (finishFile data index numTerms version) = ⟨data, index, numTerms, version⟩ := by
+  have hfl : Gen.SSTABLE_FOOTER_LEN = 20 := rfl
+  unfold openFile finishFile
+  have hlen : (data ++ index ++ (u64enc data.length ++ u64enc numTerms ++ u32enc version)).length
+      = (data ++ index).length + 20 := by
+    simp [u64enc_length, u32enc_length]; omega
+  rw [hlen, hfl, Nat.add_sub_cancel]
+  rw [List.drop_left' rfl, List.take_left' rfl]
+  have e1 : u64le (u64enc data.length ++ u64enc numTerms ++ u32enc version) = data.length := by
+    rw [List.append_assoc]; exact u64le_enc _ _ h1
+  have e2 : (u64enc data.length ++ u64enc numTerms ++ u32enc version).drop 8
+      = u64enc numTerms ++ u32enc version := by
+    rw [List.append_assoc, List.drop_left' (u64enc_length _)]
+  have e3 : (u64enc data.length ++ u64enc numTerms ++ u32enc version).drop 16 = u32enc version := by
+    have : (u64enc data.length ++ u64enc numTerms).length = 16 := by simp [u64enc_length]
+    rw [List.drop_left' this]
+  simp only [e1, e2, e3, u64le_enc _ _ h2]
+  have e4 : u32le (u32enc version) = version := by
+    have := u32le_enc version [] h3
+    simpa using this
+  simp [e4]
+
 end TantivyModel.SSTable
